@@ -73,7 +73,8 @@ class C11(Check):
         s_codec = st.sampled_from(['default', 'default'] + ch.CODECS[1:])
         s_strict = st.sampled_from([True, True, False])
         s_base = st.sampled_from(['HarnessBaseExc', 'CancelledError'])
-        s19 = st.tuples(c19.CHECK.strategy(tier), s_codec, s_strict, s_base).map(lambda t: {**t[0], 'kind': 'client-script', 'codec': t[1], 'strict': t[2], 'base_exc': t[3]})
+        s19 = st.tuples(c19.CHECK.strategy(tier), s_codec, s_strict, s_base).map(lambda t: {**t[0], 'kind': 'client-script', 'codec': t[1], 'strict': t[2], 'base_exc': t[3],
+                                                                                                    'tracer_end_raises': (t[0]['tracers'] + len(t[0]['outcomes'][0])) % 4 == 0})
         s09 = st.tuples(c09.CHECK.strategy(tier), s_codec, s_strict).map(lambda t: {**t[0], 'kind': 'client-retry', 'codec': t[1], 'strict': t[2]})
         s07 = c07.CHECK.strategy(tier).filter(lambda s: s['id_gen']['kind'] != 'uuid').map(lambda s: {**s, 'kind': 'client-notation'})
         # a batch object nothing was added to, sent through every batch notation (both halves must do the same thing with it)
@@ -89,6 +90,10 @@ class C11(Check):
             beh = {'boom': {'kind': 'raise_exc', 'exc': exc, 'marker': 'MARKER-c11-zq'}, 'boom2': {'kind': 'raise_exc', 'exc': exc, 'marker': 'MARKER-c11-zq'}}
             out.append({'kind': 'server', 'max_batch_size': None, 'behaviours': beh, 'middlewares': [], 'handlers': None,
                         'text': t([{'jsonrpc': '2.0', 'id': 1, 'method': 'boom'}, {'jsonrpc': '2.0', 'id': 2, 'method': 'boom2'}, {'jsonrpc': '2.0', 'method': 'boom'}])})
+        # request texts nested far beyond what the JSON decoder follows (outside C01's 64 levels: whether the dispatcher answers or raises
+        # here is not asserted - only that both halves do the same)
+        for raw in ('[' * 100000, '{"a":' * 50000, '{"jsonrpc":"2.0","id":1,"method":"echo","params":' + '[' * 100000 + ']' * 100000 + '}', '[' * 3000 + ']' * 3000):
+            out.append({'kind': 'server', 'max_batch_size': None, 'behaviours': {}, 'middlewares': [], 'handlers': None, 'text': {'raw': raw}})
         # plain functions served by the async dispatcher returning every falsy / edge JSON value (a result is a result, whatever its truth value)
         for value in (0, False, 0.0, '', [], {}, None, -0.0, 1, True):
             out.append({'kind': 'server', 'max_batch_size': None, 'behaviours': {'ret': {'kind': 'return', 'value': value}}, 'middlewares': [], 'handlers': None,
@@ -109,6 +114,10 @@ class C11(Check):
         for rk in ('notification', 'single', 'batch'):
             for be in ('HarnessBaseExc', 'CancelledError'):
                 out.append({'kind': 'client-script', 'base_exc': be, 'request': rk, 'outcomes': ['base-exc', 'ok'], 'tracers': 2, 'ctx': 'default', 'strategy': None})
+        # a tracer whose on_request_end raises: whatever the library does about it, both halves do the same
+        for rk in ('notification', 'single', 'batch'):
+            for word in (['ok', 'ok'], ['listed-code', 'ok'], ['unlisted-exc', 'ok']):
+                out.append({'kind': 'client-script', 'tracer_end_raises': True, 'request': rk, 'outcomes': word, 'tracers': 2, 'ctx': 'default', 'strategy': None})
         # scripted clients with an application JSON codec, every request kind
         for codec in ch.CODECS[1:]:
             for rk in ('single', 'batch', 'notification'):
@@ -225,7 +234,7 @@ class C11(Check):
             return json.dumps(out if isinstance(doc, list) else out[0])
 
         log: List[List[Any]] = []
-        kwargs: Dict[str, Any] = {'tracers': ch.make_tracers(spec.get('tracers', 0), log)}
+        kwargs: Dict[str, Any] = {'tracers': ch.make_tracers(spec.get('tracers', 0), log, 'end-raises' if spec.get('tracer_end_raises') else 'full')}
         send_kw: Dict[str, Any] = {}
         other = {'attempts': 3, 'codes': [2002, 2001], 'exceptions': ['ExcU', 'ExcE'], 'backoff': {'kind': 'periodic', 'interval': 9.0}, 'jitter': []}
         if strategy is not None:
